@@ -156,12 +156,19 @@ def excusedRead (ex : List (Cls × String)) (a : Access) : Bool :=
 def pairOkB (ex : List (Cls × String)) (a b : Access) : Bool :=
   !(a.live && b.live) || !conflictingB a b || commonLockB a b || excusedRead ex a || excusedRead ex b
 
+/-- the check the kernel evaluates: for every live *write* row `a`, every live row `b` of the same class shares a
+    mutex with it (one side in write mode) or is an excused read.  (Pairs of two reads never conflict, so scanning
+    from the writes covers every conflicting pair; the cheap class comparison comes first.) -/
 def disciplinedB (ex : List (Cls × String)) (t : List Access) : Bool :=
-  t.all fun a => t.all fun b => pairOkB ex a b
+  t.all fun a => !(a.write && a.live) ||
+    t.all fun b => b.cls != a.cls || !b.live || commonLockB a b || excusedRead ex b
 
 /-- the pairs that break the discipline (for reports) -/
 def badPairs (ex : List (Cls × String)) (t : List Access) : List (Access × Access) :=
-  t.foldr (fun a acc => ((t.filter fun b => a.id ≤ b.id && !pairOkB ex a b).map fun b => (a, b)) ++ acc) []
+  t.foldr (fun a acc =>
+    if a.write && a.live then
+      ((t.filter fun b => b.cls == a.cls && b.live && !(commonLockB a b || excusedRead ex b)).map fun b => (a, b)) ++ acc
+    else acc) []
 
 /-- a plain use is fine when it is not live code, or it is a read listed as `(field, function)` of a known finding -/
 def plainOkB (ex : List (Nat × String)) (p : PlainUse) : Bool :=
